@@ -42,7 +42,7 @@ PALETTES = [
 def cases(draw, tier):
     pal = list(draw(st.sampled_from(PALETTES)))
     cls = draw(st.sampled_from(["small", "dense", "sparse", "sparse", "empty", "small", "dense", "sparse", "sparse", "empty",
-                                "runs"]))
+                                "runs", "runs"]))
     ndim = draw(st.sampled_from([1, 1, 2]))
     if cls == "empty":
         shape = draw(st.sampled_from([[0], [0, 3], [4, 0], [0, 0]])) if ndim == 2 else [0]
@@ -58,6 +58,12 @@ def cases(draw, tier):
         if draw(st.booleans()):
             vals = sorted(vals)
         cuts = sorted(draw(st.lists(st.integers(1, total - 1), min_size=k - 1, max_size=k - 1, unique=True)))
+        if total > 70000 and draw(st.booleans()):
+            # the first run alone fills more than one 65 536-cell block, the later (larger) values arrive after it
+            k = draw(st.integers(2, 3))
+            vals = sorted(vals[:k])
+            first = draw(st.integers(65536, total - 2000))
+            cuts = [first] if k == 2 else [first, first + draw(st.integers(1, total - first - 1))]
         lens = [b - a for a, b in zip([0] + cuts, cuts + [total])]
         shape = [total] if ndim == 1 else [total // 2, 2]
         values, fill, cells = None, None, None
